@@ -257,7 +257,7 @@ func allKeywords() []string {
 
 func TestCheckExhaustiveForms(t *testing.T) {
 	s := harness.NewSub("single-forms-exhaustive",
-		"every keyword spelling (9 about, 3 after, 3 before, none) x lower/UPPER/Mixed case x shape {D M Y, M Y, Y} x 23 month spellings x {no, one} leading zero, with sampled numeric fields (days 1, 9, 10, last day of that month; 13 boundary years incl. 1, 1582, 1900, 2000, 9999; thorough: every year ending in 00 or 99 too); both NewDateRangeWithString and NewDateNode; every sentence is distinct and non-trivial by construction")
+		"every keyword spelling (9 about, 3 after, 3 before, none) x lower/UPPER/Mixed case x shape {D M Y, M Y, Y} x 23 month spellings x {no, one} leading zero, with sampled numeric fields (days 1, 9, 10, last day of that month; 13 boundary years incl. 1, 1582, 1900, 2000, 9999; thorough: every year ending in 00 or 99 too); plus ranges: every between word x and word x case x every month spelling at the start and at the end x {M Y, D M Y} x 4 keywords; both NewDateRangeWithString and NewDateNode; every sentence is distinct and non-trivial by construction")
 	s.SetExhaustive(true)
 	years := append([]int(nil), sampleYears...)
 	if harness.Thorough() {
@@ -299,6 +299,35 @@ func TestCheckExhaustiveForms(t *testing.T) {
 						run(form{Kw: kw, Case: cs, Day: d, Month: ms.s, Year: y})
 						if d < 10 {
 							run(form{Kw: kw, Case: cs, Day: d, Zero: true, Month: ms.s, Year: y})
+						}
+					}
+				}
+			}
+		}
+	}
+	// ranges: every 'between' word x every 'and' word x case x every month spelling at the start
+	// and at the end x {M Y, D M Y} x every keyword family on either end (the range words are
+	// also looked for inside the dates: 'October' holds a 'to')
+	for _, bw := range between {
+		for _, aw := range and {
+			for cs := 0; cs < 3; cs++ {
+				for _, ms := range monthSpellings {
+					for _, kw := range []string{"", "abt.", "bef", "after"} {
+						for _, day := range []int{0, 3} {
+							other := form{Case: cs, Day: 7, Month: "may", Year: 1825}
+							this := form{Kw: kw, Case: cs, Day: day, Month: ms.s, Year: 1820}
+							for _, pair := range [][2]form{{this, other}, {form{Case: cs, Day: 2, Month: "mar", Year: 1801}, this}} {
+								idx++
+								if idx%ns != shard {
+									continue
+								}
+								r := pair[1]
+								c := dateCase{Left: pair[0], Right: &r, Between: bw, And: aw}
+								s.EvalN(1, 1, "range", "range:"+bw+"/"+aw)
+								if fl := check(c); fl != nil {
+									s.Report(c, fl)
+								}
+							}
 						}
 					}
 				}
